@@ -43,6 +43,7 @@ CFG = dict(
                  "2": "the observed history violates the property predicate (Check/C19c.v: round trip, spec_chan, spec_ws, "
                       "spec_http, CHttpRaw = the 400-iff classification, CHttpE2E = written without error and read equal, CAssert 1 = a parked "
                       "Write ends with its context, CAssert 2 = the channel transport hands over a 1 MiB envelope unchanged, "
+                      "CAssert 5 = concurrent writers on one connection: exactly once, unchanged, per-writer order, "
                       "CAssert 3 = Write returns an error for an envelope that the far end refused with 503 / 400 (regression of http-write-ignores-status, "
                       "fixed in /repo 2aacfa6: a nil from Write means 'answered 200', and 200 is answered only with the delivery))",
                  "3": "a Read/Write whose context is done (issued with a done context, or cancelled since) was still blocked at a quiescent point - any "
@@ -65,6 +66,10 @@ CFG = dict(
          "(every sub-message, long strings), built on both sides from (seed, length) (cyc_body) instead of spelt out; request framings: "
          "bodies of unknown length arriving in pieces (lock-step: small, garbage, empty, 1 MiB; raw over loopback: chunked small and 1 MiB), "
          "a Content-Length larger than what is sent (unreadable) and smaller (the prefix), judged by http_classify (CHttpRaw); "
+         "a FAULT between the delivery and its answer (the connection drops after ServeHTTP handed the envelope over, before the 200 leaves) on the "
+         "first / middle / two consecutive / last envelope: whatever Write returned the receiver reads every envelope at most once, in write order "
+         "(CHttpE2EFault); free-running CONCURRENT WRITERS on one connection of every transport (channel, WebSocket: 2 and 8 writers x 400 "
+         "self-describing envelopes up to 60 KB; HTTP: x 60): everything read decodes, is self-consistent, arrives exactly once, per-writer order kept (CAssert 5); "
          "non-trivial = distinct description hash",
     assumptions=["coder/websocket, net/http, clockwork, Go channels/select and the scheduler are modelled, not verified",
                  "google.golang.org/protobuf and the generated Rpc code are validated against Model/WireFormat.v on every run, not verified from source",
